@@ -210,3 +210,247 @@ def np_copy(ev, state, node):
     if v.ty[0] not in ('arr', 'arr2', 'list'):
         raise Unsupported("np.copy operand")
     return SymVal(T.TArr(v.ty[1]) if v.ty[0] == 'list' else v.ty, v.term)
+
+
+# ---------------------------------------------------------------------------------------------
+# `.shape` of an abstracted (h5py / numpy) object - opt-in per contract with ghost=dict(h5_shapes=True)
+#   A-H5SHAPE: every entry of a dataset / array shape is a non-negative integer, and the datasets
+#   whose shape is subscripted in the function have at least that many dimensions (true for the
+#   members 'data' / 'indices' / 'indptr' of the sparse encodings, which are 1-D by the h5ad spec)
+# ---------------------------------------------------------------------------------------------
+_core_attribute = numpy_prims.attribute
+
+
+def _attribute(ev, state, base, attr, node):
+    r = _core_attribute(ev, state, base, attr, node)
+    if r is not None:
+        return r
+    c = ev.ctx.contract
+    if base.ty == T.OPAQUE and attr == 'shape' and c is not None and c.ghost.get('h5_shapes') \
+            and not ev.ctx.spec_mode:
+        v = fresh(T.TList(T.INT), 'h5shape')
+        i = z3.Int(fresh_name('si'))
+        state.assume(seq_len(v) >= 1,     # only shape[0] is licensed by the assumption
+                     z3.ForAll([i], seq_at(v, i) >= 0),
+                     seq_at(v, 0) == SIZE_OF(base.term))     # shape[0] of a 1-D array is its size
+        ev.ctx.trusted_used.add('A-H5SHAPE')
+        return v
+    return None
+
+
+numpy_prims.attribute = _attribute
+
+
+# ---------------------------------------------------------------------------------------------
+# reductions on abstracted arrays (same opt-in flag): `x.max()` / `x.min()` of an array read from
+# a file raise ValueError when the array is empty; nothing is known about its size, so the
+# obligation can only be discharged when the code guards the call
+# ---------------------------------------------------------------------------------------------
+SIZE_OF = z3.Function('size_of_opaque', T.sort_of(T.OPAQUE), z3.IntSort())
+
+
+def _m_reduce(which):
+    def h(ev, state, node, recv):
+        c = ev.ctx.contract
+        if c is None or not c.ghost.get('h5_shapes') or node.args or node.keywords:
+            if not ev.ctx.lenient:
+                raise Unsupported(f"method .{which}() on abstracted value")
+            return prims.unknown_call(ev, state, node, f"?.{which}")
+        state.assume(SIZE_OF(recv.term) >= 0)
+        ev.ctx.oblige(state, SIZE_OF(recv.term) > 0, 'ValueError', node,
+                      f"{which}() of a non-empty array (zero-size array to reduction operation)")
+        r = fresh(T.INT, which)
+        return r
+    return h
+
+
+prims.OPAQUE_METHODS['max'] = _m_reduce('max')
+prims.OPAQUE_METHODS['min'] = _m_reduce('min')
+
+
+@numpy_prims.q('scipy.sparse.csr_matrix', 'scipy.sparse.csc_matrix')
+def sp_matrix_from_dense(ev, state, node):
+    """csr_matrix(dense 2-D array): a sparse matrix *denotes* its dense matrix (appendix B:
+    `.toarray()` of a matrix built from a dense array is that array); other forms unmodelled"""
+    if len(node.args) == 1 and not node.keywords:
+        v = ev.eval(state, node.args[0])
+        if v.ty[0] == 'arr2':
+            return SymVal(v.ty, v.term)
+    raise Unsupported("scipy.sparse matrix constructor form")
+
+
+# ---------------------------------------------------------------------------------------------
+# prefix sums as specification functions
+#   cat_off(xs, k)  = sum(len(xs[q]) for q < k)              xs: list of arrays
+#   row_off(xs, k)  = sum(len(xs[q]) - 1 for q < k)          xs: list of pointer arrays (len >= 1)
+#   span_off(rs, k) = sum(rs[q][1] - rs[q][0] for q < k)      rs: list of (lo, hi) pairs, lo <= hi
+# Definition (trusted, recursive):  F(xs, 0) = 0,  F(xs, k+1) = F(xs, k) + w(xs[k]),  w >= 0
+# (w clamps at 0, which changes nothing for Python lengths / well-formed ranges).
+# Lemmas that follow from the definition by induction on k (trusted, stated once per sort):
+#   monotone:  0 <= a <= b  =>  F(xs, a) <= F(xs, b)
+#   frame:     (forall q < k: w(xs[q]) == w(ys[q]))  =>  F(xs, k) == F(ys, k)
+# The definition is instantiated at every ground use (one step forward and one step back); z3
+# gets no recursive quantified definition to loop on.
+# ---------------------------------------------------------------------------------------------
+_PSUM = {}          # (name, sort) -> z3 function
+
+
+def _nn(t):
+    return z3.If(t < 0, z3.IntVal(0), t)
+
+
+def _weight(kind, xs, k):
+    """w(xs[k]) as a z3 term"""
+    el = SymVal(xs.ty[1], seq_at(xs, k))
+    if kind == 'cat_off':
+        return _nn(seq_len(el))
+    if kind == 'row_off':
+        return _nn(seq_len(el) - 1)
+    a = select(el, ('fld', 0)).term
+    b = select(el, ('fld', 1)).term
+    return _nn(b - a)
+
+
+def _psum_handler(kind):
+    def h(ev, state, node):
+        xs = ev.eval(state, node.args[0])
+        kv = ev.eval(state, node.args[1])
+        if xs.ty[0] not in ('list', 'arr'):
+            raise Unsupported(f"{kind} of {T.show(xs.ty)}")
+        if kind in ('cat_off', 'row_off') and xs.ty[1][0] not in ('list', 'arr'):
+            raise Unsupported(f"{kind} needs a list of arrays")
+        if kind == 'span_off' and not (xs.ty[1][0] == 'tuple' and len(xs.ty[1][1]) == 2):
+            raise Unsupported("span_off needs a list of pairs")
+        srt = T.sort_of(xs.ty)
+        key = (kind, srt)
+        if key not in _PSUM:
+            _PSUM[key] = z3.Function(f"{kind}_{T.mangle(xs.ty)}", srt, z3.IntSort(), z3.IntSort())
+        F = _PSUM[key]
+        k = to_int(kv)
+        done = getattr(ev.ctx, '_psum_done', None)     # per verification context
+        if done is None:
+            done = ev.ctx._psum_done = set()
+        if key not in done:
+            done.add(key)
+            x, y = z3.Const(fresh_name('px'), srt), z3.Const(fresh_name('py'), srt)
+            a, b, q = z3.Int(fresh_name('pa')), z3.Int(fresh_name('pb')), z3.Int(fresh_name('pq'))
+            X, Y = SymVal(xs.ty, x), SymVal(xs.ty, y)
+            ev.ctx.axioms.extend([
+                z3.ForAll([x], F(x, 0) == 0),
+                # the definition, usable under binders: fires when F(x, a) and the element x[a]
+                # are both mentioned (creates F(x, a+1) but no x[a+1]: no matching loop)
+                z3.ForAll([x, a], z3.Implies(a >= 0, F(x, a + 1) == F(x, a) + _weight(kind, X, a)),
+                          patterns=[z3.MultiPattern(F(x, a), seq_at(X, a))]),
+                z3.ForAll([x, a, b], z3.Implies(z3.And(0 <= a, a <= b), F(x, a) <= F(x, b)),
+                          patterns=[z3.MultiPattern(F(x, a), F(x, b))]),
+                z3.ForAll([x, y, a, b], z3.Implies(
+                    z3.And(a == b, z3.ForAll([q], z3.Implies(z3.And(0 <= q, q < a),
+                                                             _weight(kind, X, q) == _weight(kind, Y, q)))),
+                    F(x, a) == F(y, b)), patterns=[z3.MultiPattern(F(x, a), F(y, b))]),
+            ])
+        # definition, instantiated at this use
+        state.assume(z3.Implies(k >= 0, F(xs.term, k + 1) == F(xs.term, k) + _weight(kind, xs, k)),
+                     z3.Implies(k >= 1, F(xs.term, k) == F(xs.term, k - 1) + _weight(kind, xs, k - 1)),
+                     z3.Implies(k >= 0, F(xs.term, k) >= 0))
+        return SymVal(T.INT, F(xs.term, k))
+    return h
+
+
+def _native_cat_off(xs, k):
+    return sum(len(x) for x in list(xs)[:k])
+
+
+def _native_row_off(xs, k):
+    return sum(max(len(x) - 1, 0) for x in list(xs)[:k])
+
+
+def _native_span_off(rs, k):
+    return sum(max(int(r[1]) - int(r[0]), 0) for r in list(rs)[:k])
+
+
+prims.spec_function('cat_off', native=_native_cat_off)(_psum_handler('cat_off'))
+prims.spec_function('row_off', native=_native_row_off)(_psum_handler('row_off'))
+prims.spec_function('span_off', native=_native_span_off)(_psum_handler('span_off'))
+
+
+# ---------------------------------------------------------------------------------------------
+# lemmas (each follows by induction from the core axiom of the primitive; trusted)
+# ---------------------------------------------------------------------------------------------
+_core_unique = numpy_prims.QUALIFIED['numpy.unique']
+
+
+@numpy_prims.q('numpy.unique')
+def np_unique(ev, state, node):
+    """core axioms + lemma: the sorted-unique form of a strictly increasing array is the array"""
+    r = _core_unique(ev, state, node)
+    if not isinstance(node.args[0], ast.Name):
+        return r
+    v = ev.eval(state, node.args[0])
+    u = r if r.ty[0] in ('arr', 'list') else select(r, ('fld', 0))
+    if v.ty[0] not in ('arr', 'list') or v.ty[1] != T.INT:
+        return r
+    n = seq_len(v)
+    i, j = z3.Int(fresh_name('ui')), z3.Int(fresh_name('uj'))
+    strict = z3.ForAll([i, j], z3.Implies(z3.And(0 <= i, i < j, j < n), seq_at(v, i) < seq_at(v, j)))
+    state.assume(z3.Implies(strict, z3.And(
+        seq_len(u) == n,
+        z3.ForAll([i], z3.Implies(z3.And(0 <= i, i < n), seq_at(u, i) == seq_at(v, i))))))
+    return r
+
+
+_my_diff = numpy_prims.QUALIFIED['numpy.diff']
+
+
+@numpy_prims.q('numpy.diff')
+def np_diff_with_run_lemma(ev, state, node):
+    """d = diff(v) plus the lemma: over a stretch where every difference is 1 the values form an
+    arithmetic progression  (a <= b, d[p] == 1 for a <= p < b  =>  v[b] == v[a] + b - a)"""
+    d = _my_diff(ev, state, node)
+    if not isinstance(node.args[0], ast.Name):
+        return d
+    v = ev.eval(state, node.args[0])
+    if v.ty[1] != T.INT:
+        return d
+    n = seq_len(v)
+    a, b, p = z3.Int(fresh_name('ra')), z3.Int(fresh_name('rb')), z3.Int(fresh_name('rp'))
+    state.assume(z3.ForAll([a, b], z3.Implies(
+        z3.And(0 <= a, a <= b, b < n,
+               z3.ForAll([p], z3.Implies(z3.And(a <= p, p < b), seq_at(d, p) == 1))),
+        seq_at(v, b) == seq_at(v, a) + (b - a)),
+        patterns=[z3.MultiPattern(seq_at(v, a), seq_at(v, b))]))
+    return d
+
+
+# ---------------------------------------------------------------------------------------------
+# x['name'] and x[()] on abstracted h5py objects (same opt-in flag h5_shapes):
+#   * group['name'] denotes the same object every time it is evaluated (A-H5ITEM: the file is
+#     not restructured between two look-ups inside one function);
+#   * dataset[()] reads the whole dataset: an array with the size of the dataset.
+# Both may raise (missing key ...): the pending-raise of an abstracted expression is kept.
+# ---------------------------------------------------------------------------------------------
+ITEM = z3.Function('h5_item', T.sort_of(T.OPAQUE), z3.IntSort(), T.sort_of(T.OPAQUE))
+
+
+def _opaque_subscript(ev, state, base, node):
+    from ..symexec import PendingRaise
+    from ..values import literal
+    c = ev.ctx.contract
+    if c is None or not c.ghost.get('h5_shapes'):
+        return None
+    sl = node.slice
+    r = None
+    if isinstance(sl, ast.Constant) and isinstance(sl.value, str):
+        r = SymVal(T.OPAQUE, ITEM(base.term, literal(sl.value).term))
+    elif isinstance(sl, ast.Tuple) and not sl.elts:
+        r = fresh(T.OPAQUE, 'h5read')
+        state.assume(SIZE_OF(r.term) == SIZE_OF(base.term))
+    if r is None:
+        return None
+    b = z3.Bool(fresh_name('abs_raise'))
+    ev.ctx.pending.append(PendingRaise('Exception', [b]))
+    state.assume(z3.Not(b))
+    ev.ctx.trusted_used.add('A-H5ITEM')
+    return r
+
+
+prims.OPAQUE_SUBSCRIPT = _opaque_subscript
